@@ -105,7 +105,7 @@ func (fr *Frame) extContract(fn *ssa.Function, site ssa.CallInstruction) (string
 	if site != nil {
 		for _, a := range site.Common().Args {
 			if mi, ok := a.(*ssa.MakeInterface); ok {
-				k := "ext:" + name + "/" + shortTypeName(mi.X.Type())
+				k := "ext:" + name + "@" + shortTypeName(mi.X.Type())
 				if ct := cf.Contracts[k]; ct != nil {
 					return k, ct
 				}
@@ -916,6 +916,8 @@ func (fr *Frame) intrinsic(fn *ssa.Function, args []Val, st *State, pos token.Po
 		return TV(Sel(g, asPtr(args[1]), vs)), true
 	case "same":
 		return TV(Eq(args[0].T, args[1].T)), true
+	case "lastCallee":
+		return TV(Eq(App(SFunc, "tfun", args[0].T), args[1].T)), true
 	case "mapVal":
 		mt, ok := site.Common().Args[0].Type().Underlying().(*types.Map)
 		if !ok {
@@ -1000,6 +1002,12 @@ func (fr *Frame) builtinAppend(x ssa.CallInstruction, args []Val, st *State) (Va
 	single := isSingleton(x.Common().Args[1])
 	srcRow := Sel(h, SArr(t), RowSort(es))
 	oldRow := Sel(h, SArr(s), RowSort(es))
+	// element accessors (so that quantified facts about the operands match)
+	elemFn := "elem." + name
+	vc.Uninterp(elemFn, []Sort{RowSort(es), SSlice, SInt}, es,
+		fmt.Sprintf("(forall ((r %s) (s Slice) (i Int)) (! (= (%s r s i) (select r (+ (soff s) i))) :pattern ((%s r s i))))", RowSort(es), elemFn, elemFn))
+	srcAt := func(k string) string { return fmt.Sprintf("(%s %s %s %s)", elemFn, srcRow.S, t.S, k) }
+	oldAt := func(k string) string { return fmt.Sprintf("(%s %s %s %s)", elemFn, oldRow.S, s.S, k) }
 	// in-place case
 	var inRow Term
 	if single {
@@ -1008,8 +1016,8 @@ func (fr *Frame) builtinAppend(x ssa.CallInstruction, args []Val, st *State) (Va
 		inRow = vc.Fresh("row.in", RowSort(es))
 		j := "j!" + fmt.Sprint(vc.fresh)
 		lo := Add(SOff(s), SLen(s))
-		ax := T(SBool, "(forall ((%s Int)) (= (select %s %s) (ite (and (<= %s %s) (< %s (+ %s %s))) (select %s (+ %s (- %s %s))) (select %s %s))))",
-			j, inRow.S, j, lo.S, j, j, lo.S, n.S, srcRow.S, SOff(t).S, j, lo.S, oldRow.S, j)
+		ax := T(SBool, "(forall ((%s Int)) (! (= (select %s %s) (ite (and (<= %s %s) (< %s (+ %s %s))) %s (select %s %s))) :pattern ((select %s %s))))",
+			j, inRow.S, j, lo.S, j, j, lo.S, n.S, srcAt(fmt.Sprintf("(- %s %s)", j, lo.S)), oldRow.S, j, inRow.S, j)
 		st.Assume(ax)
 	}
 	// reallocation case
@@ -1018,14 +1026,14 @@ func (fr *Frame) builtinAppend(x ssa.CallInstruction, args []Val, st *State) (Va
 	reRow = vc.Fresh("row.re", RowSort(es))
 	{
 		j := "j!" + fmt.Sprint(vc.fresh)
-		ax := T(SBool, "(forall ((%s Int)) (=> (and (<= 0 %s) (< %s %s)) (= (select %s %s) (select %s (+ %s %s)))))",
-			j, j, j, SLen(s).S, reRow.S, j, oldRow.S, SOff(s).S, j)
+		ax := T(SBool, "(forall ((%s Int)) (! (=> (and (<= 0 %s) (< %s %s)) (= (select %s %s) %s)) :pattern ((select %s %s))))",
+			j, j, j, SLen(s).S, reRow.S, j, oldAt(j), reRow.S, j)
 		st.Assume(ax)
 		if single {
 			st.Assume(Eq(Sel(reRow, SLen(s), es), Sel(srcRow, SOff(t), es)))
 		} else {
-			ax2 := T(SBool, "(forall ((%s Int)) (=> (and (<= 0 %s) (< %s %s)) (= (select %s (+ %s %s)) (select %s (+ %s %s)))))",
-				j, j, j, n.S, reRow.S, SLen(s).S, j, srcRow.S, SOff(t).S, j)
+			ax2 := T(SBool, "(forall ((%s Int)) (! (=> (and (<= %s %s) (< %s (+ %s %s))) (= (select %s %s) %s)) :pattern ((select %s %s))))",
+				j, SLen(s).S, j, j, SLen(s).S, n.S, reRow.S, j, srcAt(fmt.Sprintf("(- %s %s)", j, SLen(s).S)), reRow.S, j)
 			st.Assume(ax2)
 		}
 	}
@@ -1347,15 +1355,19 @@ func (fr *Frame) havocItems(st *State, items []modItem, pos token.Pos) {
 	}
 }
 
+var ifaceGhosts = map[string]bool{}
+
 func ghostSort(name string) Sort {
 	switch name {
 	case "$trace":
 		return STrace
 	}
 	if strings.HasPrefix(name, "$g.") {
-		switch name {
-		case "$g.lasterr":
+		if ifaceGhosts[name[3:]] {
 			return Sort("(Array Ptr Iface)")
+		}
+		if name == "$g.muxpat" {
+			return Sort("(Array Ptr (Array String Bool))")
 		}
 		return Sort("(Array Ptr Int)")
 	}
